@@ -34,7 +34,7 @@ theorem src_C01_builder_roundtrip (cd : Codec) (wb : Gen.WriterBuilder) (es : Li
     (hiv : ∀ iv, wb.index_key_interval = some iv → 1 ≤ iv ∧ iv < 2 ^ 64)
     (hasc : StrictAsc es) (hlens : ∀ e ∈ es, e.1.length < 2 ^ 32 ∧ e.2.length < 2 ^ 32)
     (hcount : es.length < 2 ^ 26)
-    (hcd : ∀ b, (cd.compress b).length < 2 ^ 64) (hct : wb.compression_type.toNat = cd.id) :
+    (hcd : ∀ b : Bytes, b.length < 2 ^ 63 → (cd.compress b).length < 2 ^ 64) (hct : wb.compression_type.toNat = cd.id) :
     ∃ file log,
       (do let (w, _) ← Gen.WriterBuilder.build wb []
           genWriterRun (codecFn cd) w es : M Sink) = .ok file ∧
